@@ -62,21 +62,28 @@ theorem refid_injective (bs bs' : List Nat) (hl : bs.length = bs'.length) (r : N
 example : refidOf [0x70, 0x68, 0x63, 0x30] ≠ refidOf [0x50, 0x48, 0x43, 0x30] ∧
     refidOf [0x45, 0x43, 0x32, 0x41] = some 0x45433241 ∧ refidOf [0x45, 0x43, 0x32, 0x41] ≠ some 0xEC2A := by decide
 
+theorem refMatches_fake (r c : Nat) : refMatches (some r) (fakeTracking c) = decide (r = c) := rfl
+
 /-- the PHC value is part of the expected bound exactly when the configured id is the report's -/
 theorem added_iff (cfg : List Nat) (chrony : Nat) (phc : Int) (hp : phc ≠ 0) (r : Nat) (hr : refidOf cfg = some r) :
-    phcExpected cfg chrony phc = some (boundF (fakeTracking chrony) + phc) ↔ r = chrony := by
+    phcExpected cfg chrony (some phc) = some (boundF (fakeTracking chrony) + phc) ↔ r = chrony := by
   unfold phcExpected
   rw [hr]
-  simp only [Option.map_some, refMatches, fakeTracking, Option.some.injEq]
+  simp only [Option.bind_some, refMatches_fake]
   by_cases h : r = chrony
   · simp [h]
-  · simp only [h, decide_false, Bool.false_eq_true, if_false]
+  · have hd : decide (r = chrony) = false := by simpa using h
+    simp only [hd, Bool.false_eq_true, if_false, Option.some.injEq]
     constructor
     · intro e; omega
-    · intro e; exact absurd e (by simpa using h)
+    · intro e; exact absurd e h
 
-/-- the model's expectation satisfies the oracle the correspondence evaluates on the daemon's record -/
-theorem refMatches_fake (r c : Nat) : refMatches (some r) (fakeTracking c) = decide (r = c) := rfl
+/-- an attribute that is not a number, with the PHC as reference: no trusted record at all -/
+theorem unparsable_not_a_measurement (cfg : List Nat) (r : Nat) (hr : refidOf cfg = some r) :
+    phcExpected cfg r none = none := by
+  unfold phcExpected
+  rw [hr]
+  simp [refMatches_fake]
 
 theorem idMatches_self (cfg : List Nat) (r : Nat) : idMatches cfg r r ≠ some false := by
   unfold idMatches
@@ -90,31 +97,53 @@ theorem idMatches_ne (cfg : List Nat) (r c : Nat) (h : r ≠ c) : idMatches cfg 
   · simpa using h
   · split <;> simp
 
-theorem phc_model_holds (cfg : List Nat) (chrony : Nat) (phc : Int) :
+/-- the model's expectation satisfies the oracle the correspondence evaluates on the daemon's record -/
+theorem phc_model_holds (cfg : List Nat) (chrony : Nat) (phc : Option Int) :
     HoldsPhcRun cfg chrony phc ((phcExpected cfg chrony phc).map (fun b => (b, 1))) = true := by
   unfold HoldsPhcRun phcExpected
   cases hr : refidOf cfg with
   | none => rfl
   | some r =>
-    simp only [Option.map_some, BEq.rfl, Bool.true_and, refMatches_fake]
+    simp only [Option.bind_some, refMatches_fake]
+    have h0 := C07.model_holds (fakeTracking chrony) 0
+    simp only [Int.add_zero] at h0
     by_cases e : r = chrony
     · subst e
       simp only [decide_true, if_true]
-      have h := C07.model_holds (fakeTracking r) phc
-      cases hm : idMatches cfg r r with
-      | none => simp only [h, Bool.true_or]
-      | some b =>
-        cases b with
-        | true => exact h
-        | false => exact absurd hm (idMatches_self cfg r)
-    · simp only [e, decide_false, Bool.false_eq_true, if_false]
-      have h := C07.model_holds (fakeTracking chrony) 0
-      cases hm : idMatches cfg r chrony with
-      | none => simp only [h, Bool.or_true]
-      | some b =>
-        cases b with
-        | true => exact absurd hm (idMatches_ne cfg r chrony e)
-        | false => exact h
+      cases phc with
+      | none =>
+        simp only [Option.map_none, Option.isNone_none]
+        cases hm : idMatches cfg r r with
+        | none => rfl
+        | some b =>
+          cases b with
+          | true => rfl
+          | false => exact absurd hm (idMatches_self cfg r)
+      | some p =>
+        have h := C07.model_holds (fakeTracking r) p
+        simp only [Option.map_some, BEq.rfl, Bool.true_and]
+        cases hm : idMatches cfg r r with
+        | none => simp only [h, Bool.true_or]
+        | some b =>
+          cases b with
+          | true => exact h
+          | false => exact absurd hm (idMatches_self cfg r)
+    · simp only [e, decide_false, Bool.false_eq_true, if_false, Option.map_some, BEq.rfl, Bool.true_and]
+      cases phc with
+      | none =>
+        cases hm : idMatches cfg r chrony with
+        | none => simp only [h0, Bool.or_true]
+        | some b =>
+          cases b with
+          | true => exact absurd hm (idMatches_ne cfg r chrony e)
+          | false => exact h0
+      | some p =>
+        cases hm : idMatches cfg r chrony with
+        | none => simp only [h0, Bool.or_true]
+        | some b =>
+          cases b with
+          | true => exact absurd hm (idMatches_ne cfg r chrony e)
+          | false => exact h0
 
 /-- non-vacuity: the scenario's report is in C07's meaningful range, so the oracle does constrain the record -/
 example : C07.applicable (fakeTracking 1346913072) 250000 = true ∧ refidOf [0x50, 0x48, 0x43, 0x30] = some 1346913072 := by
